@@ -560,7 +560,16 @@ func (r *Run) finish(c Cmd, pred Pred, rm map[string]any, p *Proc, post *Obs) *M
 	for _, x := range best {
 		all = append(all, x.Detail)
 	}
-	r.viol(d.Prop, "post-state", shape+"|@"+preClass+"|"+d.Field, "after %s (pre-state %s): %s", c.String(), preClass, strings.Join(all, "; "))
+	prop := d.Prop
+	switch c.Op {
+	case "plan":
+		prop = "C11" // plan creates exactly the described graph
+	case "prune":
+		prop = "C09"
+	case "sequence", "sequence_rm":
+		prop = "C07"
+	}
+	r.viol(prop, "post-state", shape+"|@"+preClass+"|"+d.Field, "after %s (pre-state %s): %s", c.String(), preClass, strings.Join(all, "; "))
 	return nil
 }
 
